@@ -720,10 +720,15 @@ async fn exec_inner(t: Trace, prop: &'static str) -> Outcome {
     let mut acc: Vec<TExp> = vec![];
     BEST_FAIL.with(|b| *b.borrow_mut() = None);
     ENDED.with(|e| *e.borrow_mut() = eof_seen.clone());
+    AMBIG_SKIPPED.with(|a| a.set(false));
     search(&ops, &burst_model_before, &mut idx, &mut order, &mut acc, &streams, &mut nodes, &mut found, n_ops);
     let best_fail = BEST_FAIL.with(|b| b.borrow().clone()).map(|(_, w)| w).unwrap_or_else(|| "no complete order passes the per-command reply checks".to_string());
     if nodes >= NODE_CAP && found.is_empty() {
         out.status = Status::Inconclusive("linearisation search cap".into());
+        return out;
+    }
+    if found.is_empty() && AMBIG_SKIPPED.with(|a| a.get()) {
+        out.status = Status::Inconclusive("an order the model cannot judge (ambiguous command) was skipped".into());
         return out;
     }
     if found.is_empty() {
@@ -811,6 +816,8 @@ thread_local! {
     /// connections whose session ended during the burst
     static ENDED: std::cell::RefCell<Vec<bool>> = std::cell::RefCell::new(vec![]);
     static BEST_FAIL: std::cell::RefCell<Option<(usize, String)>> = std::cell::RefCell::new(None);
+    /// the search skipped an order because the model calls a command in it ambiguous
+    static AMBIG_SKIPPED: std::cell::Cell<bool> = std::cell::Cell::new(false);
 }
 
 #[allow(clippy::too_many_arguments)]
@@ -953,6 +960,9 @@ fn search(
         let bytes = if marker_seen { format!("{}\r\nCAP LIST\r\n", op.line) } else { format!("{}\r\n", op.line) };
         let se = m2.input(op.c, bytes.as_bytes());
         if se.ambiguous.is_some() {
+            // an order in which the model cannot say what this command does: it is not a counter-example, but if
+            // no other order explains the burst the run proves nothing
+            AMBIG_SKIPPED.with(|a| a.set(true));
             continue;
         }
         // prune on the sender's own replies: everything expected on its connection must be in the window
